@@ -374,7 +374,10 @@ func TestC11(t *testing.T) {
 			for off := 0; off < len(b.files[rel]); off++ {
 				for m := 1; m < 256; m++ {
 					// masks 1..15 turn one decimal digit into another (shard names, checksums): always; the rest sampled in quick
-					if m > 15 && (m-1)%step != off%step {
+					// and the masks that turn a digit into a path character ('/', '.') spell an existing file differently: always
+					c := b.files[rel][off]
+					alias := c >= '0' && c <= '9' && (byte(m) == c^'/' || byte(m) == c^'.')
+					if m > 15 && (m-1)%step != off%step && !alias {
 						continue
 					}
 					f := fault{rel: rel, kind: "flip", off: off, xor: byte(m)}
@@ -489,13 +492,19 @@ func c11Enumerate(t *rapid.T, st *ev.Stats, tier string, known map[string]bool, 
 			}
 			for off := 0; off < len(data); off++ {
 				isShard := fileClass(rel) == "data-shard" || fileClass(rel) == "delta-shard"
-				if tier != "thorough" && len(data) > 64 && off%8 != phase && (isShard || off%2 != phase%2) {
+				// the digits of a manifest (shard numbers, checksums) are never sampled away: one changed digit names another file
+				digit := !isShard && data[off] >= '0' && data[off] <= '9'
+				if tier != "thorough" && len(data) > 64 && off%8 != phase && (isShard || off%2 != phase%2) && !digit {
 					continue
 				}
 				masks := []byte{0x01, 0x80, 0xff, 0x00}
 				if cl := fileClass(rel); cl != "data-shard" && cl != "delta-shard" {
 					// manifests are small text files: more masks (thorough: every value a byte can change to)
 					masks = []byte{0x01, 0x02, 0x03, 0x04, 0x07, 0x08, 0x10, 0x20, 0x40, 0x80, 0xff, 0x00}
+					if digit {
+						// a digit turned into a path character spells an existing file differently ("shard-1/" for "shard-10")
+						masks = append(masks, data[off]^'/', data[off]^'.')
+					}
 					if tier == "thorough" {
 						masks = masks[:0]
 						for m := 1; m < 256; m++ {
